@@ -7,7 +7,6 @@
 package main
 
 import (
-	"runtime/pprof"
 	"encoding/json"
 	"flag"
 	"fmt"
@@ -15,6 +14,7 @@ import (
 	"regexp"
 	"runtime"
 	"runtime/debug"
+	"runtime/pprof"
 	"sort"
 	"strings"
 	"time"
@@ -72,10 +72,10 @@ type Spec struct {
 }
 
 type CrashSel struct {
-	Event int    `json:"event"`          // crash before trace event #Event
-	Mode  string `json:"mode"`           // all | mask
-	Mask  string `json:"mask,omitempty"` // for mode mask: '1' = the k-th un-barriered write persisted
-	Depth int    `json:"depth,omitempty"`
+	Event int       `json:"event"`          // crash before trace event #Event
+	Mode  string    `json:"mode"`           // all | mask
+	Mask  string    `json:"mask,omitempty"` // for mode mask: '1' = the k-th un-barriered write persisted
+	Depth int       `json:"depth,omitempty"`
 	Next  *CrashSel `json:"next,omitempty"` // nested crash during recovery
 }
 
@@ -132,21 +132,21 @@ func register(name string, e Engine, props ...string) {
 }
 
 type Summary struct {
-	Type        string           `json:"type"`
-	Property    string           `json:"property"`
-	Runs        int              `json:"runs"`
-	Nontrivial  int              `json:"nontrivial"`
-	Counters    map[string]int64 `json:"counters"`
-	Fingerprints []uint64        `json:"fingerprints"`
-	SchedPrints []uint64         `json:"sched_prints"`
-	States      []uint64         `json:"states"`
-	Steps       uint64           `json:"steps"`
-	SimNanos    int64            `json:"sim_nanos"`
-	WallS       float64          `json:"wall_s"`
-	Samples     []json.RawMessage `json:"samples"`
-	Inconcl     int              `json:"inconclusive"`
-	FirstSeed   uint64           `json:"first_seed"`
-	LastSeed    uint64           `json:"last_seed"`
+	Type         string            `json:"type"`
+	Property     string            `json:"property"`
+	Runs         int               `json:"runs"`
+	Nontrivial   int               `json:"nontrivial"`
+	Counters     map[string]int64  `json:"counters"`
+	Fingerprints []uint64          `json:"fingerprints"`
+	SchedPrints  []uint64          `json:"sched_prints"`
+	States       []uint64          `json:"states"`
+	Steps        uint64            `json:"steps"`
+	SimNanos     int64             `json:"sim_nanos"`
+	WallS        float64           `json:"wall_s"`
+	Samples      []json.RawMessage `json:"samples"`
+	Inconcl      int               `json:"inconclusive"`
+	FirstSeed    uint64            `json:"first_seed"`
+	LastSeed     uint64            `json:"last_seed"`
 }
 
 func emit(v interface{}) {
